@@ -286,7 +286,7 @@ RULE_ADDENDA = {
     "C11": "Match conditions include an empty-string value (the attribute must be present and empty) and no values at all (the attribute must be present). One case in four has a second user entry of the same name for the other scope with rules of its own; questions are repeated from a second connection coming from that scope; one case in four loads a second policy into the running server in mid-case and judges later requests, sent on new connections, by it. Patterns include counted repetition ({n}, {n,m}, invalid counts), inline flags, perl classes, lazy quantifiers, classes and groups, with argument values that match and just miss them. One command request in twelve is a long command line: 20 to 60 arguments of 100 to 240 octets in front of the drawn ones; patterns include ones that look at the end of the line or for a word anywhere in it. TestC11EnumConcurrent: eight connections of one user ask permitted and denied commands at the same moment, 600 times each, every answer judged by the policy. TestC11EnumPatterns: every kind of pattern (53) alone in a permit rule and in a deny rule, against 31 argument values, deterministic. One case in five has an entry whose name differs from alice's by a blank or a tab, with rules of its own; requests name either.",
     "C13": "A third of the IPv6 probe addresses carry a zone (fe80::1%eth0), which is irrelevant to prefixes. One case in four injects a shared-secret keychain whose lookup fails for some keys: an address hit by it may be refused or fall to the next matching configuration, but what it is bound to must be one configuration's own secret, handler and users. One case in three loads a second generated configuration into the running server and probes the same addresses again, judged by the second configuration. One configuration in four gives its first scopes keychain entries that are different (and have different keys) but read alike when group and key are written one after the other with a separator: (net, core/k1/x), (net/core, k1/x), (net/core/k1, x). One configuration in five has 13, 14, 17, 24 or 40 secret configurations. One configuration in six has a secret configuration whose key is the empty string.",
     "C07": "TestC07EnumBadValues: every kind of configured value that cannot go into an authorization REPLY, asked for alone, twice, pipelined and late. The scripted connection models a write deadline: one step in eight the harness' clock moves on before the reply is written, and a write on a connection with an armed write deadline then fails (on the unchanged tree none is armed). Generated command entries include ones without an action key and with an action that is neither permit nor deny. One step in six is pipelined: a second request (acceptable, bad header, or even sequence number) on a session id of its own arrives in the same read. Sequence faults (even, replayed, jumping, restarted numbers) are aimed at sessions that are in the middle of an exchange one time in eight. TestC07EnumCosts: PAP and ASCII logins of users whose bcrypt hash was made with work factor 10, 12, 15 (14, 16, 17 too in thorough), taken from the option and from the keychain, also pipelined. Keys that the tree under test has beyond the configuration schema the harness models - struct fields found by reflection over config.ServerConfig, option names found as string literals in the sources of cmds/server - are written into two generated documents in three with values of the field's type (on the unchanged tree: the four comment fields). Half of the command authorizations name a user that has command rules. One case in eight gives the scope the empty string as its shared secret. User names of generated worlds include ones that read as another type (true, null, 0, ~, 1e3, no).",
-    "C10": "One case in three goes on after the history: a second generated configuration (and keychain) is loaded into the running server and a second history runs on a new connection from the same address, judged by the second configuration. Odd START packets (any action/type/service/minor combination) are mostly logins, optionally without data, and three times in four are followed by what a prompted client would send: the user name if it was missing, then the right password. Authenticator variants include a hash option that is a well-formed hash with something behind it. One aborting CONTINUE in three is built so that its octets are also a well-formed START of an ASCII login that carries the right password. TestC10EnumCancelDuringLogin: a user whose hash has work factor 12; the server's context is cancelled 20, 60 and 150 ms after a PAP or ASCII password (right or wrong) went in: a wrong password is never answered PASS. TestC10EnumConcurrentLogins: eight simultaneous PAP or ASCII logins of one user from eight connections (work factor 12, so the checks overlap), right and wrong passwords mixed: PASS exactly for the right ones. TestC10EnumLargeDocument: 12000 users (documents of several megabytes) in YAML and JSON, loaded from a file and through Unmarshal; users at the beginning, in the middle and at the end log in with the right password and with their group's.",
+    "C10": "One case in three goes on after the history: a second generated configuration (and keychain) is loaded into the running server and a second history runs on a new connection from the same address, judged by the second configuration. Odd START packets (any action/type/service/minor combination) are mostly logins, optionally without data, and three times in four are followed by what a prompted client would send: the user name if it was missing, then the right password. Authenticator variants include a hash option that is a well-formed hash with something behind it. One aborting CONTINUE in three is built so that its octets are also a well-formed START of an ASCII login that carries the right password. TestC10EnumCancelDuringLogin: a user whose hash has work factor 12; the server's context is cancelled 20, 60 and 150 ms after a PAP or ASCII password (right or wrong) went in: a wrong password is never answered PASS. TestC10EnumConcurrentLogins: eight simultaneous PAP or ASCII logins of one user from eight connections (work factor 12, so the checks overlap), right and wrong passwords mixed: PASS exactly for the right ones. TestC10EnumLargeDocument: 12000 users (documents of several megabytes) in YAML and JSON, loaded from a file and through Unmarshal; users at the beginning, in the middle and at the end log in with the right password and with their group's. TestC10EnumCredentialChanges: one user name with different credentials in two scopes (hash option and keychain), then a reload that changes them; after each passed login the same password is presented where and when it is not valid; expectations are the model's. A connection from a scope that has users and is nevertheless refused counts as a correct login that did not pass.",
     "C15": "The fixed policy's match lists contain empty and blank patterns. A third configuration C (secret configurations renamed so that nothing can be built, no filters) takes part in the reloads, and every lookup round also probes 10.1.9.7, which A and B deny and C cannot serve: any answer but a refusal mixes two configurations. A user with spare-capacity slices, own commands, five services and a group is authorized (command and session) during the reloads, and in half of the cases every document is pushed twice in a row. One case in three reloads by writing the document to a file and calling Load(path), as the file watcher does. Every published configuration is handed to a Loader of the reference stack (which builds providers and authorizers from it) before it is compared with the snapshot taken when it was published.",
     "C19": "One case in three (sequence number 3 or more) continues a session that was opened just before on the same connection and is waiting for its continuation. One case in eight is a body whose announced lengths exceed what is present by exactly 256 (one-octet lengths) or 65536 (two-octet lengths), under each layout of the type. Thorough adds native coverage-guided fuzzing (FuzzC19Seen): the bytes the server sees after removing its pad are the fuzz input, seeded with well-formed requests one or two bytes short or long; same classifier oracle. Sequence numbers run over all odd values 1..255. One case in two (of those that are key mismatches) has 1 to 200 octets of the client's next packet arrive in the same read, behind the mismatching packet.",
     "C01": "Every value is also built the way callers build it - New<Type>(Set<Field>(...)...) for the header and the seven bodies - and must encode (bytes and error) exactly like the struct literal. Thorough adds FuzzC01Rapid: the same property with the generators' choices taken from a coverage-guided fuzzer's byte string (rapid.MakeFuzz). One field in six and one argument in eight is text that means something to a parser instead of generated octets: address literals in legal but non-canonical spellings (2001:DB8::1, 2001:db8:0:0:0:0:0:1, 010.001.002.003, zoned, mapped), padded and signed numbers, mixed-case names, padded, quoted and escape-like text (shared with C02, C03, C04). One authorization or accounting request in 25 has everything at its maximum at once: 254 or 255 arguments of 255 octets and text fields of 0, 1, 170, 171 or 255 octets (shared with C02 and C04). Encodings of 512 octets and more that the library returned are kept (the last eight) and compared with the model again after every later encode. TestC01EnumConcurrent: the round trip of every codec from 64 goroutines at once, each with values of its own (the largest of 40 generated per codec, and argument lists of 200 to 255 entries), 40 rounds.",
@@ -299,7 +299,7 @@ RULE_ADDENDA = {
     "C11": "Command arguments include values that merely end in the <cr>/<CR> line-ending marker.",
     "C12": "One request in three is sent on the session id of the request before it with the next client sequence number (the updates of a task), naming any user. Text may contain octets outside US-ASCII, which makes the request undecodable (ERROR expected). One request in four is a near-copy of the one before it (arguments differing only in white space or in where one argument ends and the next begins). The text pool includes literal escape-like sequences (backslash-u003c, backslash-u0026, backslash-n, double backslash). One case in four also registers the syslog accounter on a unixgram socket owned by the harness (users with a SYSLOG accounter become accountable; the record must be queued on the socket when the reply arrives, exactly once, and decode to the request). One case in two uses a log.Logger over the recording sink (what SetLogSinkDefault builds over a file); in one case in three every 2nd or 3rd write of that logger reports an error after the line was taken. One request in five carries the standard attributes with values at the edges. TestC12EnumConcurrent: eight connections send 1000 different records each at the same moment (the recording sink yields before it renders what it is given); afterwards every acknowledged request has exactly one sink line that decodes to it. Words that the sources of the tree under test contain and testdata/known_literals.txt (the short string literals of the unchanged tree) does not are used as user names: such a user gets the file accounter, and requests name it or nobody.",
     "C18": "Half of the cases carry a third secret configuration with a key of its own whose prefix option is unusable; the loader's messages are searched for that key. Every log call is also passed to the reference logger of cmds/server/log at a drawn level (10/20/30/31/100) writing to a buffer, which is searched for the tokens as well. The misconfigured scope's prefix option may also be a list with good entries next to one that does not parse. Keys that the tree under test has beyond the configuration schema the harness models - struct fields found by reflection over config.ServerConfig, option names found as string literals in the sources of cmds/server - are written into two generated documents in three with values of the field's type (on the unchanged tree: the four comment fields). TestC18EnumSlowPassword: the password of an ASCII login (a searchable token) arrives 16.5 s of real time after the prompt (65 s in thorough) while other logins run on the connection. TestC18EnumPipelinedLogin: user name and password of an ASCII login go out in one write, with and without the single-connect flag; the login driver waits up to 150 ms for replies that arrive after the server went back to reading. TestC18EnumWatcherRefusedReload: the file watcher with a recording logger around both document loaders; a valid document whose shared secrets are tokens, then about a dozen rewrites the loader refuses (wrong types behind a key, cuts, stray punctuation): nothing logged may contain a secret that is still in force.",
-    "C16": "Successor documents include filter lists with an entry the loader cannot parse. Half of the histories collect lazily: a document a fresh loader refuses is fed while the previous configuration is still uncollected on the channel, and that configuration must still be there afterwards. The real-watcher sub-test also replaces the file atomically (rename over the path) and then edits it in place; if nothing is published the verdict is taken from the process' inotify watch list (/proc/self/fdinfo), not from the clock. Keys that the tree under test has beyond the configuration schema the harness models - struct fields found by reflection over config.ServerConfig, option names found as string literals in the sources of cmds/server - are drawn anew for every document of a history, two times in three each, with values of the field's type (on the unchanged tree: the four comment fields). The real-watcher sub-test records the watcher's log: if nothing is published, the watcher's last action was to report a failed reload, it has been silent for three more seconds and a fresh loader accepts the file as it stands, that is the verdict watcher-reload-failed-for-acceptable-file. One history in four loads from a file that is rewritten in place and given its previous modification time back; successor documents include edits that leave the length unchanged (one letter of a name, one digit of a prefix).",
+    "C16": "Successor documents include filter lists with an entry the loader cannot parse. Half of the histories collect lazily: a document a fresh loader refuses is fed while the previous configuration is still uncollected on the channel, and that configuration must still be there afterwards. The real-watcher sub-test also replaces the file atomically (rename over the path) and then edits it in place; if nothing is published the verdict is taken from the process' inotify watch list (/proc/self/fdinfo), not from the clock. Keys that the tree under test has beyond the configuration schema the harness models - struct fields found by reflection over config.ServerConfig, option names found as string literals in the sources of cmds/server - are drawn anew for every document of a history, two times in three each, with values of the field's type (on the unchanged tree: the four comment fields). The real-watcher sub-test records the watcher's log: if nothing is published, the watcher's last action was to report a failed reload, it has been silent for three more seconds and a fresh loader accepts the file as it stands, that is the verdict watcher-reload-failed-for-acceptable-file. One history in four loads from a file that is rewritten in place and given its previous modification time back; successor documents include edits that leave the length unchanged (one letter of a name, one digit of a prefix). TestC16EnumLive: eleven fixed histories of documents (a scope dropped, keys changed, filters dropped, a document with 6000 users followed at once by small ones) loaded into a live stack in quick succession, both formats; after each (and after half a second where a large document is involved) the live stack answers like a freshly started one.",
     "C17": "Connections may also end in a read that fails with a connection reset. One scripted packet in three makes its handler register a continuation, so that a session is still open when the connection ends. In one case in four whoever cancels also closes the listener, so the server's own Close of it reports an error. One cancel-in-handler case in six keeps the handler at work for 10 ms after the cancellation; TestC17EnumSlowHandler does so for 2.5 s of real time in quick and 32 s in thorough (Serve returning meanwhile is the verdict; the duration only bounds the patience that can be detected). The scripted connection offers CloseWrite/CloseRead like a TCP connection. Connection scripts may end in a request under the wrong key that has the first octets of the next request behind it in the same read, followed by up to six single octets: if the server goes on reading, the deadline oracle judges how. (The thorough hold of TestC17EnumSlowHandler is 47 s.) One case in eight uses an empty (not nil) shared secret. Connection scripts include segments that end inside the next packet (a packet with the first 1 to 19 octets of the next behind it, then the rest).",
 }
 for _p, _t in RULE_ADDENDA.items():
